@@ -88,6 +88,18 @@ class Canon(ast.NodeTransformer):
         if isinstance(node.test, ast.UnaryOp) and isinstance(node.test.op, ast.Not):
             node.test = node.test.operand
             node.body, node.orelse = node.orelse, node.body
+        elif isinstance(node.test, ast.Compare) and len(node.test.ops) == 1 and isinstance(node.test.ops[0], ast.NotIn):
+            node.test = negate(node.test)
+            node.body, node.orelse = node.orelse, node.body
+        # D[K] if K in D else F   ->   D.get(K, F)
+        t = node.test
+        if isinstance(t, ast.Compare) and len(t.ops) == 1 and isinstance(t.ops[0], ast.In) and isinstance(node.body, ast.Subscript) \
+                and _src(node.body.value) == _src(t.comparators[0]) and _src(node.body.slice) == _src(t.left):
+            call = ast.Call(func=ast.Attribute(value=node.body.value, attr='get', ctx=ast.Load()), args=[node.body.slice, node.orelse], keywords=[])
+            for x in ast.walk(call):
+                if not hasattr(x, 'lineno'):
+                    ast.copy_location(x, node)
+            return ast.copy_location(call, node)
         return node
 
     def visit_Assign(self, node: ast.Assign):
@@ -308,6 +320,12 @@ class _Subst(ast.NodeTransformer):
                 and isinstance(node.args[1].value, str) and node.args[1].value.isidentifier():
             return ast.copy_location(ast.Attribute(value=node.args[0], attr=node.args[1].value, ctx=ast.Load()), node)
         return node
+
+
+def _is_lookup_with_default(test: ast.AST, value: ast.AST) -> bool:
+    """`K in D` guarding `D[K]`."""
+    return isinstance(test, ast.Compare) and len(test.ops) == 1 and isinstance(test.ops[0], ast.In) and isinstance(value, ast.Subscript) \
+        and _src(value.value) == _src(test.comparators[0]) and _src(value.slice) == _src(test.left)
 
 
 class _FormatToFString(ast.NodeTransformer):
@@ -585,9 +603,18 @@ class Desugar(ast.NodeTransformer):
                 i += 2
                 continue
             # D4: if T: v = A  else: v = B   (A, B plain names / constants)  ->  v = A if T else B
+            def _simple_value(v_):
+                if isinstance(v_, (ast.Name, ast.Constant)):
+                    return True
+                if isinstance(v_, ast.Attribute):
+                    return _simple_value(v_.value)
+                if isinstance(v_, ast.Subscript):
+                    return _simple_value(v_.value) and _simple_value(v_.slice)
+                return False
             if isinstance(st, ast.If) and len(st.body) == 1 and len(st.orelse) == 1 and all(
-                    isinstance(x, ast.Assign) and len(x.targets) == 1 and isinstance(x.targets[0], ast.Name) and isinstance(x.value, (ast.Name, ast.Constant))
-                    for x in (st.body[0], st.orelse[0])) and st.body[0].targets[0].id == st.orelse[0].targets[0].id:
+                    isinstance(x, ast.Assign) and len(x.targets) == 1 and isinstance(x.targets[0], ast.Name) and _simple_value(x.value)
+                    for x in (st.body[0], st.orelse[0])) and st.body[0].targets[0].id == st.orelse[0].targets[0].id \
+                    and (all(isinstance(x.value, (ast.Name, ast.Constant)) for x in (st.body[0], st.orelse[0])) or _is_lookup_with_default(st.test, st.body[0].value)):
                 na = ast.Assign(targets=[ast.Name(id=st.body[0].targets[0].id, ctx=ast.Store())],
                                 value=ast.IfExp(test=st.test, body=st.body[0].value, orelse=st.orelse[0].value))
                 for x in ast.walk(na):
